@@ -6,7 +6,7 @@
      nilr / nonr / has_flow       reachability over the ACTIVE constraints, defined independently of the engine *)
 From Coq Require Import List Bool Arith Permutation.
 From NM Require Import Engine EngineSpec.
-From NP Require Import EngineBasics EngineStep EngineSound EngineComplete EngineMain EngineOrder EngineTerm.
+From NP Require Import EngineBasics EngineStep EngineSound EngineComplete EngineMain EngineOrder EngineTerm EngineTwoPass.
 Import ListNotations.
 
 (* at least one conflict is reported if and only if some definite nil source reaches some definite
@@ -59,3 +59,27 @@ Print Assumptions C05_terminates.
    planted source-to-sink path runs to completion and reports the flow *)
 Example C05_example : exists st, pkg_run ex_facts ex_annots ex_ts st /\ conflicts st <> [] /\ wf_triggers ex_ts.
 Proof. exact ex_runs. Qed.
+
+(* ObservePackage observes a package's triggers in TWO batches (everything but the error-return dependent triggers, then
+   those); pkg_run2 is such a run, with the table of controlled triggers accumulating over the batches.  The statement
+   of C05 holds for it with respect to the whole trigger set, and it is as good as a single pass. *)
+Theorem C05_two_batches_conflict_iff_flow : forall facts annots ts1 ts2 st,
+  pkg_run2 facts annots ts1 ts2 st -> (conflicts st <> [] <-> has_flow (pkg_csys facts annots (ts1 ++ ts2))).
+Proof. exact two_pass_conflict_iff_flow. Qed.
+Print Assumptions C05_two_batches_conflict_iff_flow.
+
+Theorem C05_two_batches_equal_one_pass : forall facts annots ts1 ts2 st st',
+  pkg_run facts annots (ts1 ++ ts2) st -> pkg_run2 facts annots ts1 ts2 st' ->
+  (conflicts st <> [] <-> conflicts st' <> []) /\ (conflicts st' = [] -> forall s, dv st s = dv st' s).
+Proof. exact two_pass_equals_one_pass. Qed.
+Print Assumptions C05_two_batches_equal_one_pass.
+
+(* ... which is false when the second batch REPLACES the table (the code before the repair of finding F28): batch 1 has
+   nil -> site 1 guarded by site 3 and a dereference of site 1, batch 2 makes site 3 nilable: the trigger set has a flow,
+   the run with the table reset reports nothing, the run with the accumulated table reports it *)
+Theorem C05_refuted_table_reset :
+  has_flow (pkg_csys [] [] (f28_ts1 ++ f28_ts2)) /\
+  (exists st, observe_package2_reset 100 init_state f28_ts1 f28_ts2 = Some st /\ conflicts st = []) /\
+  (exists st, observe_package2 100 init_state f28_ts1 f28_ts2 = Some st /\ conflicts st <> []).
+Proof. exact f28_refutes_reset. Qed.
+Print Assumptions C05_refuted_table_reset.
